@@ -341,7 +341,7 @@ func TestVerif(t *testing.T) {
 	osshim.SetRecorder(osshim.RecorderFunc(func(op osshim.Op) { sc.scan("fs-step " + op.Kind + "/" + op.Phase) }))
 	defer osshim.SetRecorder(nil)
 
-	n := r.N(480, 16000)
+	n := r.N(1200, 16000)
 	for i := 0; i < n; i++ {
 		r.Run(i, fmt.Sprintf("msg-%d", i), func(c *rep.Case) {
 			p := prng.New(r.Seed(), uint64(i), "c10")
